@@ -4,6 +4,7 @@ This module provides request handler classes for processing Gemini requests
 and generating responses, including Titan upload handlers.
 """
 
+import os
 from abc import ABC, abstractmethod
 from pathlib import Path
 from typing import TYPE_CHECKING
@@ -377,9 +378,17 @@ class FileUploadHandler(UploadHandler):
             )
 
         # 6. Save file
+        # Write to a temporary file first and move it into place, so that a failure
+        # part-way (disk full, I/O error) never leaves a truncated or partial file
+        temp = target.with_name(f".{target.name}.{os.getpid()}.upload")
         try:
             target.parent.mkdir(parents=True, exist_ok=True)
-            target.write_bytes(request.content)
+            try:
+                temp.write_bytes(request.content)
+                os.replace(temp, target)
+            except BaseException:
+                temp.unlink(missing_ok=True)
+                raise
 
             return GeminiResponse(
                 status=StatusCode.SUCCESS.value,
